@@ -113,15 +113,30 @@ def revMeta (n : DNode) (name1 name2 : String) : Except DiffErr DNode :=
     if v1 == v2 then .error .enot else .ok (n.setMetas (setMetaVal name2 v1 (setMetaVal name1 v2 n.metas)))
   | _, _ => .error .einval
 
+/-- `lyd_diff_reverse_position(node, mod)` (part of the repair of F15, (c)): `orig-position` = number of instances before the
+moved one, `position` = the instance to insert it after, counted with the moved one still in its old place (`""` = 0) -/
+def revPosition (n : DNode) : Except DiffErr DNode :=
+  match getMeta n "orig-position", getMeta n "position" with
+  | some o, some p =>
+    let cur := if atoiB p ≤ atoiB o then atoiB p else atoiB p - 1
+    let np := if atoiB o > cur then atoiB o + 1 else atoiB o
+    let str := fun (k : Nat) => if k == 0 then [] else bs (toString k)
+    .ok (n.setMetas (setMetaVal "position" (str np) (setMetaVal "orig-position" (str cur) n.metas)))
+  | _, _ => .error .einval
+
+/-- the position metadata of a moved instance: switched on the pinned tree, `revPosition` with the repair -/
+def revPos (n : DNode) : Except DiffErr DNode :=
+  if Generated.Diff13.reverseUserordRepaired then revPosition n else revMeta n "orig-position" "position"
+
 /-- the node's own part of one `LYD_TREE_DFS` step for operation `replace` -/
 def revReplace (S : Schema) (n : DNode) : Except DiffErr DNode :=
   match S.kind? n.sid with
   | some .leaf => (revValue n).bind revDefault
   | some .leaflist =>
     (revDefault n).bind fun n1 =>
-      if S.isDupInst n.sid then revMeta n1 "orig-position" "position" else revMeta n1 "orig-value" "value"
+      if S.isDupInst n.sid then revPos n1 else revMeta n1 "orig-value" "value"
   | some .list =>
-    if S.isDupInst n.sid then revMeta n "orig-position" "position" else revMeta n "orig-key" "key"
+    if S.isDupInst n.sid then revPos n else revMeta n "orig-key" "key"
   | _ => .error .eint
 
 /-- … for operation `none` -/
@@ -170,7 +185,7 @@ end
 /-- the DFS loop of `lyd_diff_reverse_all` over the duplicated diff — all of `lyd_diff_reverse_all` on the pinned tree -/
 def reversePinned (S : Schema) (d : List DNode) : Except DiffErr (List DNode) := revL S none (revDupL d)
 
-/-! ## the repair of finding F15 (a), (b): `lyd_diff_reverse_userord_r`
+/-! ## the repair of finding F15 (a), (b): `lyd_diff_reverse_userord_r`  ((c): `revPosition` above)
 
 Present in `src/diff.c` iff `Generated.Diff13.reverseUserordRepaired` (tools/extractors/diff13.py).  After the DFS loop a second
 pass over the reversed diff (siblings whose operation is `none` / `replace` recursively; `create` / `delete` subtrees are not
